@@ -41,9 +41,17 @@
 (* cookie) - equal in samlsp.New's defaults, separate settings for anyone  *)
 (* who builds the provider by hand.                                        *)
 (*                                                                         *)
+(* A deployment also has a URL (Options.URL, cfg.url): samlsp.New derives   *)
+(* from it the audience and issuer of both codecs (step NewCodecs; module  *)
+(* SessionTokenUrl).  Tokens really minted come from this deployment, from *)
+(* a deployment with another key, from one on another origin, and from     *)
+(* SIBLINGS - same key, same scheme and host, a URL that differs only in   *)
+(* the path, only in the query, only in a trailing slash or only in the    *)
+(* letter case of the host.                                                *)
+(*                                                                         *)
 (* The Properties section is written from the statement of C16 only.       *)
 (***************************************************************************)
-EXTENDS Integers, Sequences, FiniteSets, TLC, Json
+EXTENDS Integers, Sequences, FiniteSets, TLC, Json, SessionTokenUrl
 
 CONSTANTS Family,            \* "C16q" | "C16t" : which input families Init ranges over
           EnforceMethods,    \* parser.ValidMethods = {configured alg}      (TRUE in the code)
@@ -61,6 +69,8 @@ CONSTANTS Family,            \* "C16q" | "C16t" : which input families Init rang
 \* IgnoresIdPSessionEnd: the code reads none of the IdP-stated ends).  "min" is a stricter
 \* implementation the statement permits: every invariant still holds.  "max" is the design-level
 \* counterpart of a code change C16 must catch: TLC reports NothingLengthensTheSession violated.
+\* AudienceIsUrlRoot (declared in SessionTokenUrl) is FALSE in every registered configuration of this
+\* module; TRUE makes TLC report OnlyMintedSessionTokensAuthenticate violated (a sibling's session token).
 \* CookieAgeOverridesExp is FALSE in every registered configuration (the provider encodes the claims
 \* exactly as the codec's New made them).  TRUE is the named deviation of the same name, the
 \* design-level counterpart of a code change C16 must catch ("keep token and cookie in step"): with a
@@ -72,16 +82,18 @@ Far     == 100000          \* "far" in seconds; larger than every lifetime used
 TrkLife == 90              \* saml.MaxIssueDelay, lifetime of tracked-request tokens
 
 VARIABLES part,    \* "token" | "map" | "life"
-          cfg,     \* [spkey, life, cookie]
+          cfg,     \* [spkey, life, cookie, cookieAge, cookieSecs, url]
           in,      \* abstract input: token record / assertion record
           pc,      \* <<machine, stage>>
           res,     \* [sess |-> [verdict, step], trk |-> [verdict, step]]
           err,     \* error GetSession returns: "none" | "nil" | "ErrNoSession"
           out,     \* RequireAccount: "none" | "handler" | "flow" | "onerror"
           subj, claims, si, ai, ni,     \* parts "map", "life": JWTSessionCodec.New state
-          mt                            \* ... the token's iat, nbf, exp in seconds after the mint, and
+          mt,                           \* ... the token's iat, nbf, exp in seconds after the mint, and
                                         \*     ckMaxAge: the Max-Age attribute of the Set-Cookie that carries it
-vars == <<part, cfg, in, pc, res, err, out, subj, claims, si, ai, ni, mt>>
+          ident    \* what samlsp.New derived from the URLs: own = audience / issuer this deployment's codecs
+                   \* require, tok = audience / issuer the minting deployment's codec stamped into the token
+vars == <<part, cfg, in, pc, res, err, out, subj, claims, si, ai, ni, mt, ident>>
 
 ----------------------------------------------------------------------------
 (* configurations *)
@@ -94,7 +106,8 @@ vars == <<part, cfg, in, pc, res, err, out, subj, claims, si, ai, ni, mt>>
 BeyondBy == 25200
 CookieClasses == {"equal", "longer", "shorter", "zero"}
 CookieSecs(a, l) == CASE a = "equal" -> l [] a = "longer" -> l + BeyondBy [] a = "shorter" -> l \div 2 [] a = "zero" -> 0
-CfgC(k, l, c, a) == [spkey |-> k, life |-> l, cookie |-> c, cookieAge |-> a, cookieSecs |-> CookieSecs(a, l)]
+\* url        = Options.URL (SessionTokenUrl): Bare = https://sp.example.com in all configurations that existed
+CfgC(k, l, c, a) == [spkey |-> k, life |-> l, cookie |-> c, cookieAge |-> a, cookieSecs |-> CookieSecs(a, l), url |-> Bare]
 Cfg(k, l, c) == CfgC(k, l, c, "equal")
 WithCookie(cfgs) == { CfgC(c.spkey, c.life, c.cookie, a) : c \in cfgs, a \in CookieClasses \ {"equal"} }
 AllCfgs  == { Cfg(k, l, c) : k \in {"RSA", "ECDSA"}, l \in {3600, 60}, c \in {"default", "custom"} }
@@ -105,12 +118,21 @@ FourCfgs == DiagCfgs \cup { Cfg("RSA", 60, "custom"), Cfg("ECDSA", 3600, "defaul
 EdgeCfgs == { Cfg("RSA", 0, "default"), Cfg("ECDSA", 1, "custom"), Cfg("RSA", -60, "custom") }
 \* the two durations separated
 CookieCfgs == IF Family = "C16q" THEN WithCookie(DiagCfgs) ELSE WithCookie(FourCfgs)
+\* deployments that do not sit at the bare origin: a non-root path with a trailing slash, a non-root
+\* path without one and with a query, and the explicit root (the one URL that IS its own root)
+OwnUrls == { Url("sp", "/wiki/", ""), Url("sp", "/wiki", "t=a"), Url("sp", "/", "") }
+WithUrl(cfgs) == { [c EXCEPT !.url = u] : c \in cfgs, u \in OwnUrls }
+UrlCfgs == IF Family = "C16q" THEN WithUrl(DiagCfgs) ELSE WithUrl(FourCfgs)
 
 ----------------------------------------------------------------------------
 (* tokens *)
-\*  src      minted  : produced by the real CreateSession / TrackRequest of a deployment
-\*                     (key "other" = same URL, other key pair; iss/aud "other" = same key, other URL)
+\*  src      minted  : produced by the real CreateSession / TrackRequest of the deployment "by"
+\*                     (key "other" = same URL, other key pair; iss/aud "other" = same key, the minting
+\*                     deployment is configured with ANOTHER URL - what its codec then writes into the
+\*                     token is the business of step NewCodecs)
 \*           crafted : assembled by hand from segments
+\*  by       minted only: this | otherKey | otherURL (another origin) | sibPath | sibQuery | sibSlash |
+\*           sibCase (siblings: same key, same origin, URL differing in one respect); crafted: none
 \*  kind     session | tracking : shape of the claims and which marker is the token's own
 \*  alg      configured (RS256 | ES256) | otherHash (RS384 RS512 | ES384 ES512 with the same key)
 \*           | pss (PS*) | otherFamily (ES* to an RSA SP, RS* to an ECDSA SP, EdDSA) | none
@@ -130,7 +152,7 @@ Mutations == {"none", "headerEdit", "claimsEdit", "truncTwoSeg", "truncMid", "ex
 
 Base == [src |-> "crafted", kind |-> "session", alg |-> "configured", key |-> "this",
          iss |-> "eq", aud |-> "eq", audform |-> "str", iat |-> -1, nbf |-> -1, exp |-> Far,
-         marker |-> "true", mutation |-> "none", slot |-> "named", age |-> 0]
+         marker |-> "true", mutation |-> "none", slot |-> "named", age |-> 0, by |-> "none"]
 
 Fields == {"kind", "alg", "key", "iss", "aud", "audform", "iat", "nbf", "exp", "marker", "mutation", "slot"}
 FieldDom(f) == CASE f = "kind" -> {"session", "tracking"}
@@ -178,19 +200,32 @@ LifeOf(kind, c) == IF kind = "session" THEN c.life ELSE TrkLife
 \* what the mint writes into exp, seconds after the mint: the codec's MaxAge (session_jwt.go:40,
 \* request_tracker_jwt.go) - under the deviation CookieAgeOverridesExp the session provider's instead
 MintExp(kind, c) == IF CookieAgeOverridesExp /\ kind = "session" /\ c.cookieSecs > 0 THEN c.cookieSecs ELSE LifeOf(kind, c)
-Minted(kind, depl, form, age, life, mut, slot) ==
+\* Options.URL of the minting deployment, relative to this deployment's (c.url)
+DeplUrl(c, depl) == CASE depl \in {"this", "otherKey"} -> c.url
+                      [] depl = "otherURL" -> OtherOrigin(c.url)
+                      [] depl \in SibClasses -> Sibling(c.url, depl)
+\* iss / aud: is the minting deployment configured with this deployment's URL ("eq") or with another
+Minted(kind, c, depl, form, age, life, mut, slot) ==
   [src |-> "minted", kind |-> kind, alg |-> "configured",
    key |-> IF depl = "otherKey" THEN "other" ELSE "this",
-   iss |-> IF depl = "otherURL" THEN "other" ELSE "eq",
-   aud |-> IF depl = "otherURL" THEN "other" ELSE "eq",
+   iss |-> IF DeplUrl(c, depl) = c.url THEN "eq" ELSE "other",
+   aud |-> IF DeplUrl(c, depl) = c.url THEN "eq" ELSE "other",
    audform |-> form, iat |-> -age, nbf |-> -age, exp |-> life - age,
-   marker |-> "true", mutation |-> mut, slot |-> slot, age |-> age]
+   marker |-> "true", mutation |-> mut, slot |-> slot, age |-> age, by |-> depl]
 KindForms == { <<"session", "str">>, <<"tracking", "arr">>, <<"tracking", "str">> }   \* str: jwt.MarshalSingleStringAsArray = FALSE
+KindForms2 == { <<"session", "str">>, <<"tracking", "arr">> }
 Depls == {"this", "otherKey", "otherURL"}
 \* (the clock positions are those of the configured lifetime, whatever the mint wrote)
-MintedPlain(c) == UNION { { Minted(kf[1], d, kf[2], a, MintExp(kf[1], c), "none", "named") :
-                              d \in Depls, a \in Ages(LifeOf(kf[1], c)) } : kf \in KindForms }
-MintedMut(c)   == UNION { { Minted(kf[1], "this", kf[2], a, MintExp(kf[1], c), m, s) :
+AgesFew(l) == {-1, 1, l \div 2, l - 1, l + 1}
+MintedBy(c, depls, kfs, A(_)) == UNION { { Minted(kf[1], c, d, kf[2], a, MintExp(kf[1], c), "none", "named") :
+                                             d \in depls, a \in A(LifeOf(kf[1], c)) } : kf \in kfs }
+MintedPlain(c) == MintedBy(c, Depls, KindForms, Ages)
+\* the siblings of a deployment at the bare origin; every minting deployment of one that is not
+\* (its own tokens at all nine ages, the others' at five)
+MintedSib(c)   == MintedBy(c, SibClasses, KindForms2, AgesFew)
+MintedUrl(c)   == MintedBy(c, {"this"}, KindForms2, Ages)
+                  \cup MintedBy(c, (Depls \cup SibClasses) \ {"this"}, KindForms2, AgesFew)
+MintedMut(c)   == UNION { { Minted(kf[1], c, "this", kf[2], a, MintExp(kf[1], c), m, s) :
                               a \in {1, LifeOf(kf[1], c) + 1}, m \in Mutations, s \in {"named", "other"} } : kf \in KindForms }
 
 On(cfgs, toks) == { <<c, t>> : c \in cfgs, t \in { x \in toks : WF(x) } }
@@ -200,9 +235,11 @@ TokCases ==
   CASE Family = "C16q" -> On(FourCfgs, Singles(Base)) \cup On(DiagCfgs, Pairs(Base))
                           \cup On(DiagCfgs, CoreAlg \cup CoreTime \cup CoreScope)
                           \cup OnM(AllCfgs \cup EdgeCfgs \cup CookieCfgs, MintedPlain) \cup OnM(DiagCfgs, MintedMut)
+                          \cup OnM(DiagCfgs, MintedSib) \cup OnM(UrlCfgs, MintedUrl)
     [] Family = "C16t" -> On(AllCfgs, Pairs(Base)) \cup On(DiagCfgs, Triples(Base))
                           \cup On(AllCfgs, CoreAlg \cup CoreTime \cup CoreScope)
                           \cup OnM(AllCfgs \cup EdgeCfgs \cup CookieCfgs, MintedPlain) \cup OnM(AllCfgs, MintedMut)
+                          \cup OnM(AllCfgs, MintedSib) \cup OnM(UrlCfgs, MintedUrl)
 
 ----------------------------------------------------------------------------
 (* assertions (part "map") *)
@@ -264,7 +301,7 @@ LifeCfgs == (IF Family = "C16q" THEN DiagCfgs ELSE FourCfgs) \cup CookieCfgs
 
 ----------------------------------------------------------------------------
 Init == /\ \/ /\ part = "token" /\ (\E p \in TokCases : cfg = p[1] /\ in = p[2])
-              /\ pc = <<"sess", "Cookie">>
+              /\ pc = <<"new", "Codecs">>
            \/ /\ part = "map" /\ (\E p \in MapCases : cfg = p[1] /\ in = p[2])
               /\ pc = <<"map", "Times">>
            \/ /\ part = "life" /\ pc = <<"map", "Times">>
@@ -275,6 +312,18 @@ Init == /\ \/ /\ part = "token" /\ (\E p \in TokCases : cfg = p[1] /\ in = p[2])
         /\ err = "none" /\ out = "none"
         /\ subj = "" /\ claims = [k \in Keys |-> <<>>] /\ si = 1 /\ ai = 1 /\ ni = 1
         /\ mt = [iat |-> Absent, nbf |-> Absent, exp |-> Absent, ckMaxAge |-> Absent]
+        /\ ident = [own |-> NoUrl, tok |-> NoUrl]
+
+(************************ samlsp.New: the two codecs ***********************)
+\* new.go:53-60 DefaultSessionCodec, :84-92 DefaultTrackedRequestCodec: Audience = Issuer =
+\* opts.URL.String() (DeriveAudience; named deviation AudienceIsUrlRoot) - for the deployment the token
+\* is presented to, and for the deployment that minted it (a token assembled by hand has no such
+\* deployment: its iss / aud classes say how its strings relate to ident.own)
+NewCodecs == /\ pc = <<"new", "Codecs">>
+             /\ ident' = [own |-> DeriveAudience(cfg.url),
+                          tok |-> IF in.src = "minted" THEN DeriveAudience(DeplUrl(cfg, in.by)) ELSE NoUrl]
+             /\ pc' = <<"sess", "Cookie">>
+             /\ UNCHANGED <<part, cfg, in, res, err, out, subj, claims, si, ai, ni, mt>>
 
 (********************** the decode machines, step by step *****************)
 \* which marker claims the token carries
@@ -315,7 +364,11 @@ TimesOK == /\ in.exp = Absent \/ 0 < in.exp
 MarkerOK(c) == IF c = "sess" THEN ~EnforceSessMarker \/ SessMark(in) = "true"
                              ELSE ~EnforceTrkMarker \/ TrkMark(in) = "true"
 
-Rest == <<part, cfg, in, err, out, subj, claims, si, ai, ni, mt>>
+\* VerifyAudience / VerifyIssuer compare the token's string with the codec's, byte by byte
+AudOK == IF in.src = "minted" THEN ident.tok = ident.own ELSE in.aud = "eq"
+IssOK == IF in.src = "minted" THEN ident.tok = ident.own ELSE in.iss = "eq"
+
+Rest == <<part, cfg, in, err, out, subj, claims, si, ai, ni, mt, ident>>
 Check(c, stage, ok, next) ==
   /\ pc = <<c, stage>>
   /\ (IF ok THEN pc' = <<c, next>> /\ UNCHANGED res
@@ -340,9 +393,9 @@ VerifySignature(c) == Check(c, "Signature", SigOK, "Times")
 \* parser.go:101-112 Claims.Valid()
 CheckTimes(c)      == Check(c, "Times", TimesOK, "Audience")
 \* session_jwt.go:103 / request_tracker_jwt.go:62 VerifyAudience(required)
-CheckAudience(c)   == Check(c, "Audience", in.aud = "eq", "Issuer")
+CheckAudience(c)   == Check(c, "Audience", AudOK, "Issuer")
 \* session_jwt.go:106 / request_tracker_jwt.go:65 VerifyIssuer(required)
-CheckIssuer(c)     == Check(c, "Issuer", in.iss = "eq", "Marker")
+CheckIssuer(c)     == Check(c, "Issuer", IssOK, "Marker")
 \* session_jwt.go:109 / request_tracker_jwt.go:68
 CheckMarker(c)     == Check(c, "Marker", MarkerOK(c), IF c = "sess" THEN "Accept" ELSE "Index")
 \* request_tracker_cookie.go:87-90 cookie-name suffix = claims.Subject (holds by construction)
@@ -357,25 +410,27 @@ Accept(c) == /\ pc = <<c, "Accept">>
 ReturnSession == /\ pc = <<"sess", "Return">>
                  /\ err' = IF res.sess.verdict = "accept" THEN "nil" ELSE "ErrNoSession"
                  /\ pc' = <<"mw", "RequireAccount">>
-                 /\ UNCHANGED <<part, cfg, in, res, out, subj, claims, si, ai, ni, mt>>
+                 /\ UNCHANGED <<part, cfg, in, res, out, subj, claims, si, ai, ni, mt, ident>>
 
 \* middleware.go:117-129
 RequireAccount == /\ pc = <<"mw", "RequireAccount">>
                   /\ out' = IF res.sess.verdict = "accept" THEN "handler"
                             ELSE IF err = "ErrNoSession" THEN "flow" ELSE "onerror"
                   /\ pc' = <<"trk", "Cookie">>
-                  /\ UNCHANGED <<part, cfg, in, res, err, subj, claims, si, ai, ni, mt>>
+                  /\ UNCHANGED <<part, cfg, in, res, err, subj, claims, si, ai, ni, mt, ident>>
 
 ReturnTracker == /\ pc = <<"trk", "Return">>
                  /\ pc' = <<"done", "">>
-                 /\ UNCHANGED <<part, cfg, in, res, err, out, subj, claims, si, ai, ni, mt>>
+                 /\ UNCHANGED <<part, cfg, in, res, err, out, subj, claims, si, ai, ni, mt, ident>>
 
 (*********************** JWTSessionCodec.New, step by step ****************)
 KeyOf(a) == IF a.fn # "" THEN a.fn ELSE a.name          \* session_jwt.go:54-57
 
-\* :35-42 now := saml.TimeNow(); IssuedAt = NotBefore = now, ExpiresAt = now + MaxAge
+\* :35-42 now := saml.TimeNow(); Audience = c.Audience, Issuer = c.Issuer (what samlsp.New derived from the
+\* URL); IssuedAt = NotBefore = now, ExpiresAt = now + MaxAge
 MintTimes == /\ pc = <<"map", "Times">>
              /\ mt' = [mt EXCEPT !.iat = 0, !.nbf = 0, !.exp = cfg.life]
+             /\ ident' = [own |-> DeriveAudience(cfg.url), tok |-> DeriveAudience(cfg.url)]
              /\ pc' = <<"map", "Subject">>
              /\ UNCHANGED <<part, cfg, in, res, err, out, subj, claims, si, ai, ni>>
 
@@ -383,7 +438,7 @@ MintTimes == /\ pc = <<"map", "Times">>
 MapSubject == /\ pc = <<"map", "Subject">>
               /\ subj' = IF in.subject = "nameid" THEN "S" ELSE ""
               /\ pc' = <<"map", "Attr">>
-              /\ UNCHANGED <<part, cfg, in, res, err, out, claims, si, ai, ni, mt>>
+              /\ UNCHANGED <<part, cfg, in, res, err, out, claims, si, ai, ni, mt, ident>>
 
 \* :52-62 statements in order, attributes in order, values appended to the claim named KeyOf
 MapAttr == /\ pc = <<"map", "Attr">>
@@ -393,7 +448,7 @@ MapAttr == /\ pc = <<"map", "Attr">>
                        THEN si' = si + 1 /\ ai' = 1 /\ UNCHANGED <<claims, pc>>
                        ELSE /\ claims' = [claims EXCEPT ![KeyOf(in.stmts[si][ai])] = @ \o in.stmts[si][ai].vals]
                             /\ ai' = ai + 1 /\ UNCHANGED <<si, pc>>
-           /\ UNCHANGED <<part, cfg, in, res, err, out, subj, ni, mt>>
+           /\ UNCHANGED <<part, cfg, in, res, err, out, subj, ni, mt, ident>>
 
 \* :65-68 one SessionIndex value per AuthnStatement, appended to the claim "SessionIndex".
 \* Named deviation IgnoresIdPSessionEnd (SessionEndRule = "ignore"): the statement's
@@ -409,7 +464,7 @@ MapSessionIndex == /\ pc = <<"map", "SessionIndex">>
                         ELSE /\ claims' = [claims EXCEPT !["SI"] = Append(@, in.authn[ni])]
                              /\ mt' = [mt EXCEPT !.exp = EndRule(@, SnaAt(ni))]
                              /\ ni' = ni + 1 /\ UNCHANGED pc
-                   /\ UNCHANGED <<part, cfg, in, res, err, out, subj, si, ai>>
+                   /\ UNCHANGED <<part, cfg, in, res, err, out, subj, si, ai, ident>>
 
 \* CookieSessionProvider.CreateSession (session_cookie.go:31-62), the step of the PROVIDER after the
 \* codec's New: value := Codec.Encode(session) - the claims go into the token exactly as New made
@@ -424,21 +479,22 @@ ProviderCreateSession ==
   /\ mt' = [mt EXCEPT !.exp = IF CookieAgeOverridesExp /\ cfg.cookieSecs > 0 THEN mt.iat + cfg.cookieSecs ELSE @,
                       !.ckMaxAge = CookieAttr(cfg.cookieSecs)]
   /\ pc' = <<"map", "Present">>
-  /\ UNCHANGED <<part, cfg, in, res, err, out, subj, claims, si, ai, ni>>
+  /\ UNCHANGED <<part, cfg, in, res, err, out, subj, claims, si, ai, ni, ident>>
 
 \* the token is encoded, presented while fresh, decoded: the handler runs with these claims
 MapPresent == /\ pc = <<"map", "Present">> /\ part = "map"
               /\ out' = "handler" /\ pc' = <<"done", "">>
-              /\ UNCHANGED <<part, cfg, in, res, err, subj, claims, si, ai, ni, mt>>
+              /\ UNCHANGED <<part, cfg, in, res, err, subj, claims, si, ai, ni, mt, ident>>
 
 \* part "life": the token is encoded and comes back, unchanged and in the session cookie of the
 \* deployment that minted it, in.age seconds after the mint.  Of the decode machine's checks only
 \* Times depends on the clock (StandardClaims.Valid, no leeway: now >= iat, now >= nbf, now < exp);
-\* the others pass by construction.  RequireAccount then runs the handler or starts the flow.
+\* audience and issuer are what this very codec stamped; the others pass by construction.  RequireAccount then runs the handler or starts the flow.
 LifePresent == /\ pc = <<"map", "Present">> /\ part = "life"
-               /\ out' = IF mt.iat <= in.age /\ mt.nbf <= in.age /\ in.age < mt.exp THEN "handler" ELSE "flow"
+               /\ out' = IF mt.iat <= in.age /\ mt.nbf <= in.age /\ in.age < mt.exp /\ ident.tok = ident.own
+                         THEN "handler" ELSE "flow"
                /\ pc' = <<"done", "">>
-               /\ UNCHANGED <<part, cfg, in, res, err, subj, claims, si, ai, ni, mt>>
+               /\ UNCHANGED <<part, cfg, in, res, err, subj, claims, si, ai, ni, mt, ident>>
 
 \* middleware.go:238-250 RequireAttribute(name, value): some value of claims[name] equals value
 ClaimAt(n) == IF n \in Keys THEN claims[n] ELSE <<>>
@@ -450,7 +506,7 @@ Next == \/ \E c \in {"sess", "trk"} :
              \/ CheckAlgAllowed(c) \/ VerifySignature(c) \/ CheckTimes(c) \/ CheckAudience(c)
              \/ CheckIssuer(c) \/ CheckMarker(c) \/ Accept(c)
         \/ CheckIndex \/ ReturnSession \/ RequireAccount \/ ReturnTracker
-        \/ MintTimes \/ MapSubject \/ MapAttr \/ MapSessionIndex \/ ProviderCreateSession \/ MapPresent \/ LifePresent
+        \/ NewCodecs \/ MintTimes \/ MapSubject \/ MapAttr \/ MapSessionIndex \/ ProviderCreateSession \/ MapPresent \/ LifePresent
 Spec == Init /\ [][Next]_vars
 
 (************************** Properties (statement) *************************)
@@ -468,6 +524,10 @@ Why == [otherKey   |-> in.key # "this",                                   \* sig
         \* MaxAge), by a second or more - whatever exp the mint wrote into it
         tooOld     |-> in.src = "minted" /\ in.kind = "session" /\ in.age >= cfg.life + 1,
         notYet     |-> in.nbf # Absent /\ in.nbf >= 1,                    \* not yet valid by a second or more
+        \* for another audience / issuer: assembled with other strings, or minted by the codec of a
+        \* deployment whose Options.URL is not this deployment's (another origin, or a sibling that
+        \* differs in path, query, trailing slash or letter case of the host) - whatever either
+        \* deployment derives from its URL
         otherAud   |-> in.aud # "eq",
         otherIss   |-> in.iss # "eq",
         altered    |-> in.mutation \notin {"none", "sigB64Tail"}]          \* truncated or altered
@@ -552,14 +612,18 @@ Gates == { [name |-> n, value |-> v, admit |-> GateAdmit(n, v),
 
 (***************************** vector emission *****************************)
 EmitTok == Done /\ Tok => PrintT(<<"VEC", ToJson([prop |-> "C16", cfg |-> cfg, in |-> in, class |-> Class, why |-> Why,
-                                                  pred |-> [sess |-> res.sess, out |-> out, trk |-> res.trk]])>>)
+                                                  pred |-> [sess |-> res.sess, out |-> out, trk |-> res.trk],
+                                                  \* the minting deployment's URL; what its codec stamps (aud = iss)
+                                                  \* and what this deployment's codecs require, per step NewCodecs
+                                                  mint |-> [url |-> IF in.src = "minted" THEN DeplUrl(cfg, in.by) ELSE NoUrl,
+                                                            aud |-> ident.tok, own |-> ident.own]])>>)
 EmitMap == Done /\ part = "map" => PrintT(<<"MAP", ToJson([prop |-> "C16", cfg |-> cfg, in |-> in, class |-> MapClass,
                                                            pred |-> [subj |-> subj, claims |-> claims, gates |-> Gates,
-                                                                     exp |-> mt.exp, ckMaxAge |-> mt.ckMaxAge,
+                                                                     exp |-> mt.exp, ckMaxAge |-> mt.ckMaxAge, aud |-> ident.tok,
                                                                      noSessionAdmit |-> GateNoSession]])>>)
 EmitLife == Done /\ Life => PrintT(<<"LIFE", ToJson([prop |-> "C16", cfg |-> cfg, in |-> in, class |-> LifeClass, why |-> LifeWhy,
                                                      at |-> [sna |-> [i \in DOMAIN in.sna |-> EndAt(in.sna[i], cfg.life)],
                                                              cond |-> EndAt(in.cond, cfg.life), scd |-> EndAt(in.scd, cfg.life)],
-                                                     pred |-> [out |-> out, exp |-> mt.exp, ckMaxAge |-> mt.ckMaxAge,
+                                                     pred |-> [out |-> out, exp |-> mt.exp, ckMaxAge |-> mt.ckMaxAge, aud |-> ident.tok,
                                                                subj |-> subj, claims |-> claims]])>>)
 =============================================================================
